@@ -477,6 +477,13 @@ func generateProtectedHeaders(req *signature.SignRequest, protected cose.Protect
 
 	// extended attributes
 	for _, elm := range req.ExtendedSignedAttributes {
+		// a COSE label is an integer or a text string; any other key type
+		// cannot be encoded, and an unhashable one would panic below
+		switch elm.Key.(type) {
+		case int, int8, int16, int32, int64, uint, uint8, uint16, uint32, uint64, string:
+		default:
+			return &signature.InvalidSignRequestError{Msg: fmt.Sprintf("extended attribute key %v: COSE envelope format only supports keys of integer or string type", elm.Key)}
+		}
 		if _, ok := protected[elm.Key]; ok {
 			return &signature.InvalidSignRequestError{Msg: fmt.Sprintf("%q already exists in the protected header", elm.Key)}
 		}
